@@ -45,6 +45,8 @@ def plan(tier, seed):
 	for start in range(len(taxo.WORLDS)):
 		tasks.append(('t_persisted', dict(start=start, depth=3 if tier == 'quick' else 4)))
 	tasks.append(('t_report', dict(N=5 if tier == 'quick' else 6)))
+	for given_as in ('float64', 'list', 'longdouble'):
+		tasks.append(('t_wide_distances', dict(given_as=given_as, N=3 if tier == 'quick' else 4)))
 	tasks.append(('t_monotone', dict(N=4 if tier == 'quick' else 5)))
 	return tasks
 
@@ -52,7 +54,7 @@ def plan(tier, seed):
 _LAST = {}
 
 
-def check_item(sh, parent, thr, report, taxa, placement, dists, genomes=None, stats=True):
+def check_item(sh, parent, thr, report, taxa, placement, dists, genomes=None, stats=True, given_as='float32'):
 	from gambit.query import get_result_item, QueryParams, QueryInput
 	prev = _LAST.get(id(taxa[0]))
 	first = _LAST.get(('first', id(taxa[0])))
@@ -63,11 +65,13 @@ def check_item(sh, parent, thr, report, taxa, placement, dists, genomes=None, st
 	_LAST[id(taxa[0])] = me
 	if genomes is None:
 		genomes = taxo.make_genomes(taxa, placement)
-	darr = np.array(dists, dtype=F32)
+	darr = np.array(dists, dtype=F32) if given_as == 'float32' else np.array(dists, dtype=np.float64) if given_as == 'float64' else np.array(dists, dtype=np.longdouble) if given_as == 'longdouble' else list(dists)
 	item = get_result_item(taxo.fake_db(genomes), QueryParams(), darr, QueryInput('q'))
 	r = item.classifier_result
 	sh.evals += 1
 	case = dict(parent=list(parent), thr=list(thr), report=list(report), placement=list(placement), dists=list(dists))
+	if given_as != 'float32':
+		case['distances_given_as'] = given_as
 	# earlier calls on the SAME taxon objects with other thresholds / flags (state remembered per object would show; needed to replay)
 	hist = [c for c in (first, prev) if c is not None and (c['thr'] != list(thr) or c['report'] != list(report))]
 	if hist:
@@ -291,6 +295,38 @@ def t_report(N):
 	return sh
 
 
+def t_wide_distances(given_as, N):
+	"""Distance vectors in double precision (arrays, plain lists, long double) - the classification functions are public and take any
+	array-like: values ON a threshold, one unit in the last place of a double above / below it, and 1e-9 away (all closer to the threshold than
+	single precision can tell).  Every forest up to N taxa, thresholds over {none, 0.25, 0.3, 0.5}."""
+	sh = Shard()
+	import math
+	pts = []
+	for t in (0.25, 0.3, 0.5):
+		pts += [t, math.nextafter(t, 1.0), math.nextafter(t, 0.0), t + 1e-9, t - 1e-9]
+	pts = sorted(set(pts + [0.0, 0.75, 1.0]))
+	for n in range(1, N + 1):
+		for parent in R.forests(n):
+			taxa = taxo.build_taxa(parent)
+			for thr in itertools.product([None, 0.25, 0.3, 0.5], repeat=n):
+				if all(t is None for t in thr):
+					continue
+				report = tuple([True] * n)
+				taxo.set_attrs(taxa, thr=thr, report=report)
+				for g in range(n):
+					genomes = taxo.make_genomes(taxa, (g,))
+					for d in pts:
+						check_item(sh, parent, thr, report, taxa, (g,), (d,), genomes, stats=False, given_as=given_as)
+				if n >= 2:
+					genomes = taxo.make_genomes(taxa, (0, n - 1))
+					for d1, d2 in itertools.product(pts[::2], repeat=2):
+						check_item(sh, parent, thr, report, taxa, (0, n - 1), (d1, d2), genomes, stats=False, given_as=given_as)
+	sh.nontrivial += sh.evals
+	sh.count('double_precision_distance_cases', sh.evals)
+	sh.sample(dict(family='wide-distances', given_as=given_as, points=pts[:8]))
+	return sh
+
+
 def t_monotone(N):
 	"""As stated: for the same closest genome and d1 < d2, prediction(d2) is prediction(d1), one of its ancestors, or none -
 	checked on the real outputs, without the model."""
@@ -353,7 +389,7 @@ def replay(case, kind=None):
 			taxo.set_attrs(taxa, thr=pc['thr'], report=pc['report'])
 			check_item(Shard(), parent, tuple(pc['thr']), tuple(pc['report']), taxa, tuple(pc['placement']), tuple(pc['dists']))
 		taxo.set_attrs(taxa, thr=case['thr'], report=case['report'])
-		check_item(sh, parent, tuple(case['thr']), tuple(case['report']), taxa, tuple(case['placement']), tuple(case['dists']))
+		check_item(sh, parent, tuple(case['thr']), tuple(case['report']), taxa, tuple(case['placement']), tuple(case['dists']), given_as=case.get('distances_given_as', 'float32'))
 	return sh.violations
 
 
